@@ -81,7 +81,7 @@ checks = {
  "C13": dict(
    category="model_checking", design_ref="DESIGN.md §3 C13",
    technique="stateless model checking of the real RuleClient.Run inside testing/synctest bubbles (virtual clock, quiescence by synctest.Wait): exhaustive enumeration of rule configurations x sequences of point batches / clock advances, every publication of the rule compared with a reference interpreter after each batch",
-   text="Each of 72 single point conditions (all operators, value kinds and filter combinations), all ordered pairs over a reduced set, and 6 schedule windows (incl. midnight wrap) alone or combined with a number condition are run against all batch sequences of length 2 (thorough 3, plus two-point batches) / all operation sequences of length 4 (6) over clock advances and points. Condition active points, the rule active point, exactly one run of the right action list with the rule as origin, and the opposite list marked inactive are checked as multisets per batch.",
+   text="Each of 106 single point conditions (all operators, value kinds and filter combinations; 34 with operator / text / number fields left over from another value type), all ordered pairs over a reduced set, and 6 schedule windows (incl. midnight wrap) alone or combined with a number condition are run against all batch sequences of length 2 (thorough 3, plus two-point batches) / all operation sequences of length 4 (6) over clock advances and points. Condition active points, the rule active point, exactly one run of the right action list with the rule as origin, and the opposite list marked inactive are checked as multisets per batch.",
    note="Narrow seam: no store; the rule receives up.<parent>.<node> messages as the store would rebroadcast them (C06). Raw-key filter semantics kept outside the alphabet. Compiled with go1.26.8 for testing/synctest. Further parts: every combination of stored active flags of rule and conditions (incl. the rule without conditions), misconfigured actions in front of the lists, two actions per list, condition value changed while the rule runs, schedule conditions with weekday sets and a second schedule condition."),
  "C07": dict(
    category="model_checking", design_ref="DESIGN.md §2.3, §3 C07",
